@@ -28,6 +28,7 @@ type sop struct {
 	Ref  string // "#1" "#2" "latest" "nope" ""
 	Body int
 	Size int  // add: when > 0 the body is exactly Size bytes
+	Same bool // add: the received date equals that of the other "same" deliveries (copies of one mail to several recipients share it); age order is arrival order
 	Zero bool // add: the received date is the zero time (what is written is what reads back)
 	Back bool // add: the received date lies BEFORE every earlier delivery's (dates are metadata; order is arrival order)
 }
@@ -35,6 +36,9 @@ type sop struct {
 func (o sop) String() string {
 	switch o.Kind {
 	case "add":
+		if o.Size > 0 && o.Same {
+			return fmt.Sprintf("add(%s,%dB,same-date)", storeBoxes[o.MB], o.Size)
+		}
 		if o.Size > 0 {
 			return fmt.Sprintf("add(%s,%dB)", storeBoxes[o.MB], o.Size)
 		}
@@ -196,6 +200,9 @@ func (r *storeRun) applyOp(o sop, check bool) (probs [][2]string, changed bool) 
 		}
 		if o.Zero {
 			date = time.Time{}
+		}
+		if o.Same {
+			date = time.Unix(1700000000, 0)
 		}
 		body := storeBodies[o.Body]
 		if o.Size > 0 {
